@@ -116,6 +116,13 @@ func runC16MixedProgram(w *ATWorld, db *sql.DB, proxied bool, pinned bool, table
 					} else {
 						res.outs = append(res.outs, show(ps.ExecContext(ctx, 1+s.id%3)))
 					}
+				case "savepoint", "rollbackto", "release":
+					q := map[string]string{"savepoint": "SAVEPOINT app_sp", "rollbackto": "ROLLBACK TO SAVEPOINT app_sp", "release": "RELEASE SAVEPOINT app_sp"}[s.kind]
+					if tx != nil {
+						res.outs = append(res.outs, show(tx.ExecContext(ctx, q)))
+					} else {
+						res.outs = append(res.outs, "-")
+					}
 				case "begin":
 					if tx != nil {
 						res.outs = append(res.outs, "-")
@@ -245,6 +252,11 @@ func runC16Mixed(c *Ctx) {
 				case x < 9 && !inTx:
 					steps = append(steps, c16mStep{phase, "begin", 0})
 					inTx = true
+				case inTx && phase != 1 && r.Chance(40):
+					// savepoints of the application's own, outside the global transaction: statements the proxy has
+					// no business with (inside, it refuses them: its undo log could not follow a partial rollback)
+					steps = append(steps, c16mStep{phase, "savepoint", 0}, c16mStep{phase, "exec", 1 + r.Intn(3)},
+						c16mStep{phase, []string{"rollbackto", "release"}[r.Intn(2)], 0})
 				case inTx:
 					steps = append(steps, c16mStep{phase, []string{"commit", "rollback"}[r.Intn(2)], 0})
 					inTx = false
